@@ -2,7 +2,9 @@
 //! verif hook) on a scripted `hyper::rt::Read`, then reads through the returned `Rewind`.
 //!
 //! line: `sniff <ev>* ; <cap>*`   ev = d<hex> | p | e | x
-//! obs : `<h1|h2|err> <n1,n2,..|-> <hex of every byte delivered|->`
+//! obs : `<h1|h2|err|stall> <n1,n2,..|-> <hex of every byte delivered|->`
+//!   stall: the future returned `Pending` during a poll in which nothing had arranged for it to be woken (every scripted
+//!   `Pending` wakes the task; a `Pending` after reads that all returned `Ready` would never be polled again by a real executor)
 use crate::rng::Rng;
 use hyper::rt::{Read, ReadBufCursor, Write};
 use std::collections::VecDeque;
@@ -111,6 +113,26 @@ pub fn show_evs(evs: &[Ev]) -> String {
         })
         .collect::<Vec<_>>()
         .join(" ")
+}
+
+struct CountWake(std::sync::atomic::AtomicUsize);
+impl std::task::Wake for CountWake { fn wake(self: std::sync::Arc<Self>) { self.0.fetch_add(1, std::sync::atomic::Ordering::SeqCst); } }
+
+/// Poll to completion the way an executor would: the future is polled again only if it was woken. `Err(())` = it returned
+/// `Pending` without anybody having been asked to wake it (it would sleep for ever); `Ok(None)` = no end in 10 000 polls.
+pub fn block_on_woken<F: Future>(fut: F) -> Result<Option<F::Output>, ()> {
+    let mut fut = std::pin::pin!(fut);
+    let count = std::sync::Arc::new(CountWake(std::sync::atomic::AtomicUsize::new(0)));
+    let waker = std::task::Waker::from(count.clone());
+    let mut cx = Context::from_waker(&waker);
+    for _ in 0..10_000 {
+        let before = count.0.load(std::sync::atomic::Ordering::SeqCst);
+        if let Poll::Ready(v) = fut.as_mut().poll(&mut cx) {
+            return Ok(Some(v));
+        }
+        if count.0.load(std::sync::atomic::Ordering::SeqCst) == before { return Err(()); }
+    }
+    Ok(None)
 }
 
 /// Poll to completion with a no-op waker (scripted Pending results wake immediately).
@@ -265,9 +287,10 @@ pub fn run(toks: &[&str]) -> String {
     let evs = parse_evs(&toks[..split]);
     let caps: Vec<usize> = toks[(split + 1).min(toks.len())..].iter().filter_map(|t| t.parse().ok()).collect();
     let io = ScriptIo::new(evs);
-    let res = match block_on(hyperdriver::verif_hooks::read_version(io)) {
-        Some(r) => r,
-        None => return "hang - -".into(),
+    let res = match block_on_woken(hyperdriver::verif_hooks::read_version(io)) {
+        Ok(Some(r)) => r,
+        Ok(None) => return "hang - -".into(),
+        Err(()) => return "stall - -".into(),
     };
     let (h2, mut rewind) = match res {
         Ok(x) => x,
